@@ -9,15 +9,15 @@ import (
 	openfgav1 "github.com/openfga/api/proto/openfga/v1"
 	parser "github.com/openfga/language/pkg/go/transformer"
 
+	"github.com/openfga/openfga/verifharness/checks/sem"
 	"github.com/openfga/openfga/verifharness/drive"
 	"github.com/openfga/openfga/verifharness/vk"
 )
 
 // wideCandidates: the tuning knobs must not decide the answer when a ListObjects request produces many more
-// candidates needing a confirming Check than any buffer or pool holds: 150 / 400 objects behind an
+// candidates needing a confirming Check than any buffer or pool holds: 150 objects behind an
 // intersection, wildcard and userset subjects (classic reverse expansion + Check), on classic servers that
-// differ only in breadth limit and read concurrency (1 … 10), each with a 6 s ListObjects deadline so that a
-// stalled producer/consumer pair shows as a truncated answer instead of holding the run.
+// differ only in breadth limit and read concurrency (10, 2, 1), each with a 40 s ListObjects deadline.
 func wideCandidates(c *vk.Ctx, base *drive.Srv) {
 	m, err := parser.TransformDSLToProto(`model
   schema 1.1
@@ -33,7 +33,7 @@ type doc
 		c.HarnessError("dsl: %v", err)
 		return
 	}
-	n := c.Pick(150, 400)
+	n := 150
 	store, err := base.CreateStore("c02-wide")
 	if err != nil {
 		c.HarnessError("store: %v", err)
@@ -63,10 +63,17 @@ type doc
 		}
 	}
 	sort.Strings(want)
+	// The default-breadth server goes first: its duration says how fast this machine answers the request at
+	// the moment. A server with a lower breadth limit works through the same candidates with less
+	// parallelism; if it comes back with a truncated answer although the reference server needed less than
+	// an eighth of the list deadline, the tuning decided the answer. A truncated answer on a machine that is
+	// that slow for everybody is inconclusive.
+	const deadline = 40 * time.Second
+	ref10 := map[string]time.Duration{}
 	for _, cfg := range []drive.Cfg{
-		{Breadth: 1, ReadsCheck: 1, ReadsLO: 1, LODeadline: 6 * time.Second},
-		{Breadth: 2, ReadsCheck: 2, ReadsLO: 2, LODeadline: 6 * time.Second},
-		{Breadth: 10, ReadsCheck: 100, LODeadline: 6 * time.Second},
+		{Breadth: 10, ReadsCheck: 100, LODeadline: deadline},
+		{Breadth: 2, ReadsCheck: 2, ReadsLO: 2, LODeadline: deadline},
+		{Breadth: 1, ReadsCheck: 1, ReadsLO: 1, LODeadline: deadline},
 	} {
 		s, err := drive.NewShared(cfg, base)
 		if err != nil {
@@ -78,22 +85,35 @@ type doc
 				rq := drive.Req{Store: store, Model: mid, Object: "doc", Relation: "viewer", User: subj}
 				var lo drive.ListOutcome
 				api := "ListObjects"
+				t0 := time.Now()
 				if streamed {
 					api = "StreamedListObjects"
 					lo = s.StreamedListObjects(rq)
 				} else {
 					lo = s.ListObjects(rq)
 				}
+				took := time.Since(t0)
+				if cfg.Breadth == 10 {
+					ref10[api+subj] = took
+				}
 				got := append([]string{}, lo.Items...)
 				sort.Strings(got)
 				c.Case(fmt.Sprintf("wide|%s|%s|%s|n=%d", api, cfg.Name(), subj, n), true)
 				c.Count("wide_candidate_requests", 1)
-				if lo.Err != nil || lo.Hung {
+				if lo.Hung {
+					sem.Hung(c, cfg.Name(), lo)
+					continue
+				}
+				if lo.Err != nil {
 					c.Violation("", "wide|error|"+cfg.Name(), fmt.Sprintf("%s(doc, viewer, %s) over %d candidate objects on %s failed: %v", api, subj, n, cfg.Name(), lo.Err), map[string]any{"server": cfg.Name(), "objects": n})
 					continue
 				}
 				if strings.Join(got, ",") != strings.Join(want, ",") {
-					c.Violation("", "wide|diff|"+cfg.Name(), fmt.Sprintf("%s(doc, viewer, %s) on %s returned %d of the %d permitted objects (no error): the answer depends on the tuning (breadth limit / read concurrency)", api, subj, cfg.Name(), len(got), n),
+					if ref10[api+subj] > deadline/8 || cfg.Breadth == 10 {
+						c.Inconclusive(fmt.Sprintf("wide-candidate answer truncated on %s while the reference server needed %s", cfg.Name(), ref10[api+subj]))
+						continue
+					}
+					c.Violation("", "wide|diff|"+cfg.Name(), fmt.Sprintf("%s(doc, viewer, %s) on %s returned %d of the %d permitted objects (no error, after %s; the default-breadth server answered completely in %s): the answer depends on the tuning (breadth limit / read concurrency)", api, subj, cfg.Name(), len(got), n, took.Round(time.Millisecond), ref10[api+subj].Round(time.Millisecond)),
 						map[string]any{"server": cfg.Name(), "objects": n, "returned": len(got), "model": "viewer: [user, user:*, group#member] and allowed"})
 				}
 			}
